@@ -225,13 +225,24 @@ theorem find_refines_spec (ops : List Op) (h : H) (t : String) :
   have := inv ops CSet.empty cacheOK_empty
   exact ⟨(cacheOK_find _ h this).2, (cacheOK_findByType _ t this).2⟩
 
+theorem identsLt_irrefl (l : List (List Char)) : identsLt l l = false := by
+  induction l with
+  | nil => rfl
+  | cons x xs ih => simp [identsLt, ih]
+
+theorem ver_lt_irrefl (v : Ver) : v.lt v = false := by
+  unfold Ver.lt
+  cases hp : v.pre with
+  | nil => simp
+  | cons x xs => simp [identsLt_irrefl]
+
 /-- ✦ the registration kept for a (type, major) never goes down in version: after an `add` the
     stored hint is not lower than the added one nor than the previously stored one. -/
 theorem add_keeps_highest (ce : Bool) (s : CSet) (h : H) (val : Nat) (hok : (add ce s h val).2 = true) :
     ∃ sh sv, lookupKey (h.t, h.v.major) (add ce s h val).1.set = some (sh, sv) ∧
       sh.v.lt h.v = false ∧
       (∀ eh ev, lookupKey (h.t, h.v.major) s.set = some (eh, ev) → sh.v.lt eh.v = false ∨ sh = h) := by
-  have vlt_irrefl : ∀ v : Ver, v.lt v = false := by intro v; unfold Ver.lt; simp
+  have vlt_irrefl := ver_lt_irrefl
   cases hl : lookupKey (h.t, h.v.major) s.set with
   | none =>
     simp only [add, hl]
@@ -251,9 +262,9 @@ theorem add_keeps_highest (ce : Bool) (s : CSet) (h : H) (val : Nat) (hok : (add
 /-- ✗ why the cache fact matters: caching the value passed to `Add` makes
     `Add(t-v1.2.0,A); Add(t-v1.1.0,B); Find(t-v1.1.0)` answer `B` although `A` is registered. -/
 theorem add_lower_version_cache_witness :
-    let s1 := (add false CSet.empty ⟨"t", ⟨1, 2, 0⟩⟩ 100).1
-    let s2 := (add false s1 ⟨"t", ⟨1, 1, 0⟩⟩ 200).1
-    valOf (find s2 ⟨"t", ⟨1, 1, 0⟩⟩).2 = some 200 ∧ valOf (findPlain s2 ⟨"t", ⟨1, 1, 0⟩⟩) = some 100 := by decide
+    let s1 := (add false CSet.empty ⟨"t", ⟨1, 2, 0, []⟩⟩ 100).1
+    let s2 := (add false s1 ⟨"t", ⟨1, 1, 0, []⟩⟩ 200).1
+    valOf (find s2 ⟨"t", ⟨1, 1, 0, []⟩⟩).2 = some 200 ∧ valOf (findPlain s2 ⟨"t", ⟨1, 1, 0, []⟩⟩) = some 100 := by decide
 
 /-- ✦ facts of the current source -/
 theorem facts_ok :
@@ -261,8 +272,13 @@ theorem facts_ok :
     Gen.C31.reTypeAllowedChars = "^[a-z0-9][a-z0-9\\-_\\+]*[a-z0-9]$" ∧
     Gen.C31.minTypeLength = 2 ∧ Gen.C31.maxTypeLength = 100 ∧
     Gen.C31.typeRejectsMarker = true ∧ Gen.C31.addCachesEffective = true ∧ Gen.C31.cacheSize = 1 ∧
-    Gen.C31.pins = Pins.C31 := by
-  refine ⟨by decide, by decide, by decide, by decide, by decide, by decide, by decide, by decide, by decide⟩
+    Gen.C31.cacheKeySpacesSeparate = true ∧ Gen.C31.pins = Pins.C31 := by
+  refine ⟨by decide, by decide, by decide, by decide, by decide, by decide, by decide, by decide, by decide, by decide⟩
+
+/-- semver precedence examples the unrepaired comparison got wrong (first character of the first
+    identifier skipped; equal-length numerics never compared) -/
+example : identsLt [['a', 'b']] [['b', 'a']] = true ∧ identsLt [['1']] [['2']] = true ∧ identsLt [['2']] [['1']] = false ∧
+    identsLt [['a']] [['a'], ['1']] = true ∧ identsLt [['9']] [['1', '0']] = true ∧ identsLt [['1']] [['a']] = true := by decide
 
 example : typeValid true 2 100 "sh-w_m+e".toList = true ∧ versionShape "v1.2.3-alpha".toList = true := by decide
 example : typeValid true 2 100 "ab-v1".toList = false := by decide
